@@ -98,6 +98,8 @@ func Parts() []mc.Part {
 	return []mc.Part{
 		KernelPart(),
 		mc.ExplorePart("erc20", New(Variant{Name: "erc20", Ratio: "1"}), 6, 8, false, rule),
+		// the contract of the (scale 6) token is deployed with 3 decimals: conversions still move exactly the converted amount
+		mc.ExplorePart("erc20-contract-decimals-3", New(Variant{Name: "erc20-contract-decimals-3", Ratio: "1", ContractScale: 3}), 4, 5, false, rule),
 		mc.ExplorePart("feeswap-ratio-1", New(Variant{Name: "feeswap-ratio-1", FeeSwap: true, Ratio: "1"}), 4, 5, false, rule),
 		mc.ExplorePart("feeswap-late-issue", New(Variant{Name: "feeswap-late-issue", FeeSwap: true, Ratio: "1", LateIssue: true}), 4, 5, false, rule),
 		mc.ExplorePart("feeswap-ratio-0.5", New(Variant{Name: "feeswap-ratio-0.5", FeeSwap: true, Ratio: "0.5"}), 4, 5, false, rule),
